@@ -30,6 +30,13 @@ MUTS={
  "M13-link-arguments-swapped": [("                route_module_name, update_module_name, gate_idx, 0\n","                update_module_name, route_module_name, gate_idx, 0\n")],
  # the proposed repairs ("positive mutations")
  "FIX-c-name": [("            update_module_name = get_update_module_name(\n                route_entry.interface,\n                next_hop_mac,\n            )\n","            update_module_name = get_update_module_name(\n                route_module_name,\n                next_hop_mac,\n            )\n")],
+ "FIX-a-pending-list": [
+   ("        self._unresolved_arp_queries_cache[route_entry.next_hop_ip] = route_entry\n",
+    "        pending = self._unresolved_arp_queries_cache.setdefault(route_entry.next_hop_ip, [])\n        if route_entry not in pending:\n            pending.append(route_entry)\n"),
+   ("        route_entry = self._unresolved_arp_queries_cache.get(\n            attr_dict[KEY_NETWORK_LAYER_DEST_ADDR]\n        )\n        gateway_mac = attr_dict[KEY_LINK_LAYER_ADDRESS]\n        if route_entry:\n            self._add_neighbor(route_entry, gateway_mac)\n            del self._unresolved_arp_queries_cache[route_entry.next_hop_ip]\n",
+    "        next_hop_ip = attr_dict[KEY_NETWORK_LAYER_DEST_ADDR]\n        route_entries = self._unresolved_arp_queries_cache.get(next_hop_ip)\n        gateway_mac = attr_dict[KEY_LINK_LAYER_ADDRESS]\n        if route_entries:\n            for route_entry in route_entries:\n                self._add_neighbor(route_entry, gateway_mac)\n            del self._unresolved_arp_queries_cache[next_hop_ip]\n"),
+   ('        else:\n            logger.info("Neighbor %s does not exist", route_entry.next_hop_ip)\n',
+    '        else:\n            logger.info("Neighbor %s does not exist", route_entry.next_hop_ip)\n            pending = self._unresolved_arp_queries_cache.get(route_entry.next_hop_ip, [])\n            if route_entry in pending:\n                pending.remove(route_entry)\n                if not pending:\n                    del self._unresolved_arp_queries_cache[route_entry.next_hop_ip]\n')],
  "FIX-b-purge": [('        else:\n            logger.info("Neighbor %s does not exist", route_entry.next_hop_ip)\n','        else:\n            logger.info("Neighbor %s does not exist", route_entry.next_hop_ip)\n            pending = self._unresolved_arp_queries_cache.get(route_entry.next_hop_ip)\n            if pending == route_entry:\n                del self._unresolved_arp_queries_cache[route_entry.next_hop_ip]\n')],
 }
 which=sys.argv[2:] or list(MUTS)
